@@ -117,6 +117,26 @@ PROPS = {
         "not_decided": ["replies 'in order' across pipelined commands; liveness of the response writer task", "the resulting file tree (needs the backend outcome specification of C18)"],
         "explanation": "",
     },
+    "C16": {
+        "modules": ["contracts.c16_timeouts", "contracts.dispatcher_units", "contracts.worker_units", "contracts.server_units"],
+        "unit_filter_prefix": ["StreamIO", "Server.pasv.<locals>", "Server.epsv.<locals>", "Server.dispatcher/set-up", "retr_worker@", "stor_worker@", "list_worker@", "mlsd_worker@", "Server."],
+        "level": "proof",
+        "trusted_base": [T_PY, T_ENGINE, T_SOLVER, T_AIO, T_CONN],
+        "assumptions": [
+            "T-aio wait_for: with timeout None behaves as a plain await; otherwise returns the result or raises TimeoutError no earlier than the timeout — the *wiring* (which bound guards which await) is what is proved",
+            "a configured timeout of 0 is treated as 'no timeout' by StreamIO.__init__ (`x or timeout`); the obligations state exactly that",
+        ],
+        "not_decided": ["wall-clock behaviour ('promptly after the bound')", "the throttle sleep inside ThrottleStreamIO.read/write happens outside the timeout (noted, not part of the statement)", "that a session which keeps sending commands is never dropped: each parsed line arms a fresh reader (Server.dispatcher/for-task-in-done), the timer itself is T-aio"],
+        "explanation": "",
+    },
+    "C17": {
+        "modules": ["contracts.dispatcher_units", "contracts.c16_timeouts", "contracts.server_units", "contracts.worker_units"],
+        "level": "proof",
+        "trusted_base": [T_PY, T_ENGINE, T_SOLVER, T_AIO, T_CONN, T_IND],
+        "assumptions": ["isolation is decided as ownership / frame conditions: which objects are fresh per session, which are shared, and that session code writes only its own connection object and the ledgered shared counters"],
+        "not_decided": ["the observational statement (same replies, data and tree changes as when running alone) under interleavings on a shared backend: needs commutativity of backend operations on disjoint paths and a simulation argument (concurrency beyond this family)"],
+        "explanation": "",
+    },
     "C06": {
         "modules": ["contracts.c06_framing"],
         "level": "proof",
